@@ -1,5 +1,5 @@
+use crate::solvers::common::solve_variable_free_model;
 use crate::{LinearModel, LpSolution, MILPValue, SolverError, solve_milp_lp_problem};
-use indexmap::IndexMap;
 
 /// Solves any kind of linear programming problem with the built-in MILP solver.
 ///
@@ -45,13 +45,10 @@ use indexmap::IndexMap;
 /// let solution = auto_solver(&model).unwrap();
 /// ```
 pub fn auto_solver(lp: &LinearModel) -> Result<LpSolution<MILPValue>, SolverError> {
-    if lp.domain().is_empty() {
-        // A variable-free model still carries a constant objective (the offset).
-        return Ok(LpSolution::new(
-            vec![],
-            lp.objective_offset(),
-            IndexMap::new(),
-        ));
+    // A variable-free model still carries a constant objective (the offset)
+    // and constant rows, which decide its feasibility.
+    if let Some(result) = solve_variable_free_model(lp) {
+        return result;
     }
     solve_milp_lp_problem(lp)
 }
